@@ -7,6 +7,9 @@
 patch="$1"; shift
 cd /verif
 if [ -n "$(git -C /repo status --porcelain)" ]; then echo "/repo not clean"; exit 2; fi
+# whatever ends this script (also a closed pipe behind it), /repo gets its working tree back
+trap 'git -C /repo checkout -- . 2>/dev/null' EXIT INT TERM PIPE HUP
+if [ -n "$(git -C /repo status --porcelain)" ]; then echo "/repo not clean"; exit 2; fi
 git -C /repo apply "$patch" || { echo "patch does not apply"; exit 2; }
 for p in "$@"; do
   out=$(./check "$p" --tier quick 2>&1)
